@@ -1008,6 +1008,7 @@ class SSHConnection(SSHPacketHandler, asyncio.Protocol):
         self._auth_final = False
         self._auth_request_sent = False
         self._auth_request_count = 0
+        self._begin_auth_done: Optional[asyncio.Event] = None
         self._auth_methods = [b'none']
         self._auth_was_trivial = True
         self._username = ''
@@ -2523,6 +2524,7 @@ class SSHConnection(SSHPacketHandler, asyncio.Protocol):
                 self.logger.info('Beginning auth for user %s', username)
 
                 self._username = username
+                self._begin_auth_done = asyncio.Event()
                 begin_auth = True
             else:
                 begin_auth = False
@@ -2536,33 +2538,41 @@ class SSHConnection(SSHPacketHandler, asyncio.Protocol):
 
             self._auth_request_count += 1
 
-            self.create_task(self._finish_userauth(begin_auth, username,
+            self.create_task(self._finish_userauth(begin_auth,
+                                                   self._begin_auth_done,
+                                                   username,
                                                    self._auth_request_count,
                                                    method, packet))
 
-    async def _finish_userauth(self, begin_auth: bool, username: str,
-                               request_count: int, method: bytes,
-                               packet: SSHPacket) -> None:
+    async def _finish_userauth(self, begin_auth: bool,
+                               begin_auth_done: Optional[asyncio.Event],
+                               username: str, request_count: int,
+                               method: bytes, packet: SSHPacket) -> None:
         """Finish processing a user authentication request"""
 
         if not self._owner: # pragma: no cover
             return
 
         if begin_auth:
-            # This method is only in SSHServerConnection
-            # pylint: disable=no-member
-            await cast(SSHServerConnection, self).reload_config()
+            assert begin_auth_done is not None
 
-            if username != self._username or self._auth_complete or \
-                    not self._owner:
-                # Superseded by a request for another user while the
-                # config was being reloaded
-                return
+            try:
+                # This method is only in SSHServerConnection
+                # pylint: disable=no-member
+                await cast(SSHServerConnection, self).reload_config()
 
-            result = cast(SSHServer, self._owner).begin_auth(username)
+                if username != self._username or self._auth_complete or \
+                        not self._owner:
+                    # Superseded by a request for another user while the
+                    # config was being reloaded
+                    return
 
-            if inspect.isawaitable(result):
-                result = await cast(Awaitable[bool], result)
+                result = cast(SSHServer, self._owner).begin_auth(username)
+
+                if inspect.isawaitable(result):
+                    result = await cast(Awaitable[bool], result)
+            finally:
+                begin_auth_done.set()
 
             if request_count != self._auth_request_count or \
                     self._auth_complete:
@@ -2572,6 +2582,10 @@ class SSHConnection(SSHPacketHandler, asyncio.Protocol):
             if not result:
                 await self.send_userauth_success()
                 return
+        elif begin_auth_done and not begin_auth_done.is_set():
+            # An earlier request for this user is still reloading the
+            # config and running begin_auth; don't overtake it
+            await begin_auth_done.wait()
 
         if not self._owner: # pragma: no cover
             return
